@@ -1,3 +1,68 @@
-"""Positive/negative controls compiled by the same driver (filled in later)."""
+"""Checker sensitivity run (thorough tier): the property's check is run against variants of the current tree that are known
+to break the property - the independently written changes in seeded/<Cxx>-*/patch.diff, the hand mutants in
+selftest/mutants/<Cxx>-*.diff and the reverse patches of the recorded fixes - each applied to a scratch copy of /repo
+outside /repo and /verif that is removed afterwards.  Nothing of zlink is executed: the same static rules analyse the variant.
+
+The result is evidence about the *checker* (how many breaking variants it reports), not a verdict on the tree; a survivor is
+listed in the evidence and printed as a note, it never turns into a VIOLATION of the unchanged tree."""
+import os, glob, json, shutil, subprocess, tempfile
+
+VERIF = os.path.dirname(os.path.dirname(os.path.abspath(__file__)))
+
+
+def _variants(pid):
+    out = []
+    for d in sorted(glob.glob(os.path.join(VERIF, 'seeded', pid + '-*'))):
+        p = os.path.join(d, 'patch.diff')
+        if not os.path.exists(p):
+            continue
+        expect = True
+        try:
+            m = json.load(open(os.path.join(d, 'meta.json')))
+            if m.get('superseded_by_fix'):
+                expect = False
+        except Exception:
+            pass
+        out.append((os.path.basename(d), p, expect))
+    for p in sorted(glob.glob(os.path.join(VERIF, 'selftest', 'mutants', pid + '-*.diff'))):
+        out.append((os.path.basename(p)[:-5], p, True))
+    return out
+
+
 def run(pid, tier):
-    return {}
+    if tier != 'thorough' or os.environ.get('ZL_REPO', '/repo') != '/repo' or os.environ.get('ZL_NO_SELFTEST'):
+        return {}
+    variants = _variants(pid)
+    if not variants:
+        return {'variants': 0}
+    base = tempfile.mkdtemp(prefix='zlself-')
+    res = []
+    try:
+        for name, patch, expect in variants:
+            wt = os.path.join(base, 'tree')
+            shutil.rmtree(wt, ignore_errors=True)
+            r = subprocess.run(['rsync', '-a', '--exclude', 'target', '--exclude', '.git', '/repo/', wt + '/'], capture_output=True, text=True)
+            if r.returncode:
+                res.append({'variant': name, 'status': 'copy-failed'})
+                continue
+            r = subprocess.run(['git', 'apply', '--unsafe-paths', '--directory', wt, patch], capture_output=True, text=True, cwd='/')
+            if r.returncode:
+                r = subprocess.run(['patch', '-p1', '-s', '-d', wt, '-i', patch], capture_output=True, text=True)
+            if r.returncode:
+                res.append({'variant': name, 'status': 'patch-does-not-apply-to-current-tree'})
+                continue
+            env = dict(os.environ, ZL_REPO=wt, ZL_TARGET=os.path.join(base, 'target'), ZL_NO_SELFTEST='1')
+            r = subprocess.run([os.path.join(VERIF, 'check'), pid, '--tier', 'quick'], env=env, capture_output=True, text=True, cwd=VERIF)
+            rules = sorted({l.split(':')[0].strip().split(' ')[1] for l in r.stdout.splitlines() if l.startswith('  rule ')})
+            st = {0: 'not-reported', 1: 'reported'}.get(r.returncode, 'check-error')
+            res.append({'variant': name, 'status': st, 'rules': rules, 'expected_to_break': expect})
+    finally:
+        shutil.rmtree(base, ignore_errors=True)
+    rep = [x for x in res if x.get('expected_to_break', True) and x['status'] in ('reported', 'not-reported')]
+    out = {'variants': len(res), 'breaking_variants_analysed': len(rep), 'reported': sum(1 for x in rep if x['status'] == 'reported'), 'results': res}
+    for x in res:
+        if x.get('expected_to_break', True) and x['status'] == 'not-reported':
+            print('NOTE: sensitivity run - breaking variant %s is not reported by the %s rules' % (x['variant'], pid))
+        if not x.get('expected_to_break', True) and x['status'] == 'reported':
+            print('NOTE: sensitivity run - variant %s no longer breaks the property (superseded by a fix) but is reported' % x['variant'])
+    return out
